@@ -420,6 +420,15 @@ def commitMS (H : Bytes → Bytes) (order : List Name) (s : MStore) : Option (MS
     let cid : CID := ⟨version, ci.hash H⟩
     some (⟨cid, stores, aput version ci s.cinfos, some version⟩, cid, ws ++ [.final version ci])
 
+/-- A history of blocks, each with the iteration order Go's map happened to use. Returns the final
+store and the commit ids. -/
+def runMS (H : Bytes → Bytes) : MStore → List (List Name × DBlock) → Option (MStore × List CID)
+  | s, [] => some (s, [])
+  | s, (order, b) :: rest =>
+    match commitMS H order (s.applyBlock b) with
+    | none => none
+    | some (s', cid, _) => (runMS H s' rest).map fun r => (r.1, cid :: r.2)
+
 /-- The disk after the first `k` atomic writes of a commit (a crash right after the `k`-th). -/
 def crashDisk (d : Disk) (ws : List DWrite) (k : Nat) : Disk := (ws.take k).foldl Disk.apply d
 
